@@ -230,7 +230,14 @@ pub enum ApiRes {
     Other,
 }
 
+/// key of the catalogue's malformed filter: a NOT without operand (matches nothing; the index cannot compile it, so
+/// the selection falls back to a scan)
+pub const NOT_WITHOUT_OPERAND: &str = "__not_without_operand__";
+
 pub fn exact_filter(key: &str, value: &str) -> MetadataFilter {
+    if key == NOT_WITHOUT_OPERAND {
+        return MetadataFilter { filter_type: Some(FilterType::NotFilter(Box::new(kyrodb_engine::proto::NotFilter { filter: None }))) };
+    }
     MetadataFilter { filter_type: Some(FilterType::Exact(ExactMatch { key: key.to_string(), value: value.to_string() })) }
 }
 
@@ -356,7 +363,7 @@ pub fn gen_op(rng: &mut crate::rng::Rng, c: &TCfg, universe: u64, write_no: &mut
                 *write_no += 1;
                 ApiOp::Knn { q: bits(&gen_vector(rng, c.dim, *write_no)), k: 2 }
             }
-            90..=93 => ApiOp::IdsForFilter { key: "k".into(), value: "5".into() },
+            90..=93 => ApiOp::IdsForFilter { key: if rng.chance(1, 3) { NOT_WITHOUT_OPERAND.into() } else { "k".into() }, value: "5".into() },
             94..=96 => ApiOp::GetMeta { id },
             _ => ApiOp::Exists { id },
         },
@@ -374,7 +381,7 @@ pub fn gen_op(rng: &mut crate::rng::Rng, c: &TCfg, universe: u64, write_no: &mut
             0..=19 => mk_insert(rng, id),
             20..=27 => ApiOp::Delete { id },
             28..=31 => ApiOp::BatchDelete { ids: (0..rng.range(1, 3)).map(|_| rng.below(universe + 1)).collect() },
-            32..=34 => ApiOp::BatchDeleteByFilter { key: "k".into(), value: rng.pick(&["5", "a", "10"]).to_string() },
+            32..=34 => ApiOp::BatchDeleteByFilter { key: if rng.chance(1, 4) { NOT_WITHOUT_OPERAND.into() } else { "k".into() }, value: rng.pick(&["5", "a", "10"]).to_string() },
             35..=40 => {
                 *write_no += 1;
                 ApiOp::UpdateMeta { id, meta: gen_meta(rng, *write_no), merge: rng.chance(1, 2) }
@@ -408,7 +415,7 @@ pub fn gen_op(rng: &mut crate::rng::Rng, c: &TCfg, universe: u64, write_no: &mut
             87 => ApiOp::CacheSize,
             88 => ApiOp::HscStats,
             89..=91 => ApiOp::Snapshot,
-            92..=93 => ApiOp::IdsForFilter { key: "k".into(), value: "5".into() },
+            92..=93 => ApiOp::IdsForFilter { key: if rng.chance(1, 3) { NOT_WITHOUT_OPERAND.into() } else { "k".into() }, value: "5".into() },
             94..=95 => ApiOp::UpdatePredictor,
             96..=97 => ApiOp::LogAccess { ids: vec![id, rng.below(universe)] },
             _ => ApiOp::StrategyStats,
